@@ -1,6 +1,8 @@
 package main
 
 import (
+	"os"
+	"time"
 	"fmt"
 	"go/types"
 	"strings"
@@ -392,8 +394,12 @@ func (e *Exec) checkAssert(st *State, c *Term, msg string) {
 		return
 	}
 	neg := e.c.Not(c)
+	tq := time.Now()
 	r, m := e.sol.Check(st.pc, neg, e.wantModel())
 	e.res.Verdicts++
+	if os.Getenv("GOSMT_PROFILE") != "" {
+		e.res.note(fmt.Sprintf("profile: assert %q %.0fms-bucket", msg, float64(int(time.Since(tq).Milliseconds()/50)*50)))
+	}
 	if r == Unknown {
 		// portfolio on the standalone query
 		q := DumpQuery(st.pc, neg, "", nil)
@@ -435,6 +441,9 @@ func (e *Exec) checkAssert(st *State, c *Term, msg string) {
 		if e.feasible(st, c) == Unsat {
 			panic(deadSignal{"assertion always fails"})
 		}
+		st.pc = append(st.pc, c)
+	} else if r == Unsat && e.ob.Lemmas {
+		// a proven assertion is a lemma for the rest of the path
 		st.pc = append(st.pc, c)
 	}
 	st.decided.m[c.id] = 1
